@@ -350,7 +350,15 @@ def rule_slots(R):
     clause_quota_after_enqueue(R, "slots/quota-after-enqueue")
 
 
+def rule_release(R):
+    """slots and arena bytes do not leak on the error path either: an acknowledgement with a failure code still releases
+    the retained packet (shared with C18)"""
+    from .c18 import clause_remove_then_report
+    clause_remove_then_report(R, "slots/released")
+
+
 def run(R):
+    R.rule("release", rule_release)
     R.rule("slots", rule_slots)
     R.rule("arena-order", rule_arena_order)
     R.rule("base", rule_base)
